@@ -124,6 +124,18 @@ func init() {
 		if err != nil {
 			return "", err
 		}
+		// ---- Factory.TruncatePages removes exactly the pages whose ID is below the bound
+		_, ff, err := ParseFile(repo, "pkg/queue/page/factory.go")
+		if err != nil {
+			return "", err
+		}
+		tp := FindFunc(ff, "factory", "TruncatePages")
+		if tp == nil || tp.Body == nil {
+			return "", fmt.Errorf("factory.TruncatePages not found")
+		}
+		sb.WriteString("\ndef truncatePagesConds : List String := " + LeanStrList(c05Conds(tp)) + "\n")
+		sb.WriteString("\ndef truncatePagesLoops : List String := " + LeanStrList(c05Loops(tp)) + "\n")
+		sb.WriteString("\ndef truncatePagesCallSeq : List String := " + LeanStrList(CallSeq(tp)) + "\n")
 		wb := FindFunc(mf, "mappedPage", "WriteBytes")
 		if wb == nil || wb.Body == nil {
 			return "", fmt.Errorf("mappedPage.WriteBytes not found")
@@ -356,6 +368,27 @@ func c05Assigns(fd *ast.FuncDecl) []string {
 			out = append(out, c05Text(x))
 		case *ast.IncDecStmt:
 			out = append(out, types.ExprString(x.X)+x.Tok.String())
+		}
+		return true
+	})
+	return out
+}
+
+// c05Loops lists "for <key>, <value> := range <expr>" / "for <cond>" headers of fd in source order.
+func c05Loops(fd *ast.FuncDecl) []string {
+	var out []string
+	es := func(e ast.Expr) string {
+		if e == nil {
+			return "_"
+		}
+		return types.ExprString(e)
+	}
+	ast.Inspect(fd.Body, func(n ast.Node) bool {
+		switch x := n.(type) {
+		case *ast.RangeStmt:
+			out = append(out, "for "+es(x.Key)+", "+es(x.Value)+" range "+es(x.X))
+		case *ast.ForStmt:
+			out = append(out, "for "+es(x.Cond))
 		}
 		return true
 	})
